@@ -655,6 +655,7 @@ func smallLog(c *core.Case) {
 		}
 		list = append(list, m)
 	}
+	run.Count("generator_draws_rejected_by_validatebasic", g.rejected)
 	exhaustive(c, r, list, fmt.Sprintf("small:%03d", c.I))
 	run.Count("exh_logs_done", 1)
 }
@@ -777,6 +778,7 @@ func largeLog(c *core.Case) {
 	g := &gen{r: r}
 	n := 6 + r.Intn(40)
 	list := g.list(n)
+	run.Count("generator_draws_rejected_by_validatebasic", g.rejected)
 	msgs := randomTimes(r, list)
 	dir, err := scratchDir("verif-c15-repair-")
 	if err != nil {
@@ -831,6 +833,12 @@ func largeLog(c *core.Case) {
 	c.Guard("rotated files under random faults", func() interface{} { return lj.witness(lj.cur, nil) }, func() {
 		lj.readIntact(ro, meterExact)
 		searchAll(lj, ro, r, files, 3)
+		if cfg.Timed {
+			// the real ticker placed the rotation points: the layout is not a function of the case's
+			// PRNG, so only the layout-independent checks above are made (a fault drawn on these
+			// files would not replay)
+			return
+		}
 		le := newLayoutEnv(lj, ro, files, r)
 		for i := 0; i < nf; i++ {
 			fi := r.Intn(len(files))
